@@ -42,6 +42,8 @@ def lenTx (t : Tx) : Nat :=
    else match t.base with
      | none => 0
      | some b => lenBase b + (match t.prun with | none => 0 | some p => lenPrunable p b.ty))
+/-- `String`: `vi_len + b.len()` (byte length) -/
+def lenString (s : Bytes) : Nat := lenVarint s.length + s.length
 def lenHeader (h : Header) : Nat := lenVarint h.major + lenVarint h.minor + lenVarint h.timestamp + lenBytes h.prev + 4
 def lenBlock (b : Block) : Nat := lenHeader b.hdr + lenTx b.miner + lenVec lenBytes b.hashes
 end Monero
